@@ -148,7 +148,10 @@ def method_row(ctx, w: Wiring, meth: str, rust_arms, py_ops, rust_dec):
         op = case['opcode']
         tag = f'{meth}->{op}'
         if op is None:
-            ctx.ob('emit', tag, False, f'{meth}: a path writes no instruction', where)
+            if case.get('why'):
+                ctx.ob('opcode-byte', tag, False, f'{meth}: {case["why"]}: the checker decodes the first byte as the opcode', where)
+            else:
+                ctx.ob('emit', tag, False, f'{meth}: a path writes no instruction', where)
             continue
         ctx.ob('emit', tag, case.get('nwrites', 1) >= 1 and op in py_ops, f'{op} is not a member of Instruction', where,
                facts={'operands': [show_operand(o) for o in case['operands']]})
